@@ -499,8 +499,16 @@ func (i *IniParser) matchingGroups(name string) []*Group {
 func (i *IniParser) parse(ini *ini) error {
 	p := i.parser
 
+	// Options which were already set explicitly before this ini was read
+	// (they are not overridden when parsing as defaults)
+	var alreadySet = make(map[*Option]bool)
+
 	p.eachOption(func(cmd *Command, group *Group, option *Option) {
 		option.clearReferenceBeforeSet = true
+
+		if option.preventDefault {
+			alreadySet[option] = true
+		}
 	})
 
 	var quotesLookup = make(map[*Option]bool)
@@ -546,7 +554,7 @@ func (i *IniParser) parse(ini *ini) error {
 			}
 
 			// ini value is ignored if parsed as default but defaults are prevented
-			if i.ParseAsDefaults && opt.preventDefault {
+			if i.ParseAsDefaults && alreadySet[opt] {
 				continue
 			}
 
@@ -582,6 +590,9 @@ func (i *IniParser) parse(ini *ini) error {
 			var err error
 
 			if i.ParseAsDefaults {
+				// Earlier entries of this ini for the same option must not
+				// prevent later ones (slices and maps accumulate)
+				opt.preventDefault = false
 				err = opt.setDefault(pval)
 			} else {
 				err = opt.Set(pval)
